@@ -97,6 +97,10 @@ func toNative(v value, m map[int]uint64, memo map[int]uint64) (interface{}, bool
 		}
 		return u, true
 	case []value:
+		if x == nil {
+			// a nil slice reaches the JSON-schema validator as null, not as an empty list
+			return nil, true
+		}
 		out := make([]interface{}, len(x))
 		for k, e := range x {
 			n, ok := toNative(e, m, memo)
@@ -107,6 +111,9 @@ func toNative(v value, m map[int]uint64, memo map[int]uint64) (interface{}, bool
 		}
 		return out, true
 	case *omap:
+		if x == nil {
+			return nil, true
+		}
 		out := map[string]interface{}{}
 		for _, e := range x.live() {
 			kn, ok := toNative(e.key, m, memo)
